@@ -36,6 +36,8 @@ type Frame struct {
 	// havocked loops (by header index): header was cut with an invariant
 	Cut map[int]bool
 	Pending *pendingCut
+	// LoopSnap: the state in which a cut loop (by ordinal) was entered on this path, for loopentry(e) in invariants
+	LoopSnap map[int]*State
 }
 
 type pendingCut struct {
@@ -114,6 +116,12 @@ func (st *State) clone() *State {
 			nf.Cut[k] = v
 		}
 		nf.Defers = append([]deferred{}, f.Defers...)
+		if f.LoopSnap != nil {
+			nf.LoopSnap = make(map[int]*State, len(f.LoopSnap))
+			for k, v := range f.LoopSnap {
+				nf.LoopSnap[k] = v
+			}
+		}
 		n.Frames[i] = &nf
 	}
 	n.Cells = make(map[*Cell]Val, len(st.Cells))
